@@ -76,7 +76,7 @@ func (parameter Parameter) MarshalJSON() ([]byte, error) {
 	if x := parameter.CollectionFormat; x != "" {
 		m["collectionFormat"] = x
 	}
-	if x := parameter.Type; x != nil {
+	if x := parameter.Type; x != nil && len(*x) != 0 {
 		m["type"] = x
 	}
 	if x := parameter.Format; x != "" {
